@@ -192,6 +192,33 @@ def scenario_text(tape, out):
             inside = True
     if inside:
         out.probe("cut-inside-multibyte")
+    # two text contents decoded in an interleaved fashion (two readers, one per content): the
+    # scheduler decides whose next chunk is pulled; neither may disturb the other
+    text2 = _text(tape)
+    if charset in ("latin-1", None):
+        text2 = "".join(ch if ord(ch) < 256 else "ÿ" for ch in text2)
+    data2 = text2.encode(enc)
+    chunks2 = _cut(tape, data2)
+    other = Content(ContentType("text", "plain", dict(params)), lambda: list(chunks2))
+    its = [content.iter_text(), other.iter_text()]
+    got2 = ["", ""]
+    alive = [0, 1]
+    steps = 0
+    try:
+        while alive:
+            i = alive[tape.draw("schedule", len(alive), "next-reader")] if len(alive) > 1 else alive[0]
+            steps += 1
+            try:
+                got2[i] += next(its[i])
+            except StopIteration:
+                alive.remove(i)
+    except UnicodeDecodeError as e:
+        out.violate("text-mismatch", f"interleaved-readers:{charset}:raised", f"texts {text!r} / {text2!r} chunks {chunks} / {chunks2}: {e!r}")
+    else:
+        if got2 != [text, text2]:
+            out.violate("text-mismatch", f"interleaved-readers:{charset}", f"texts {text!r} / {text2!r} chunks {chunks} / {chunks2}: got {got2}")
+    if len(chunks) > 1 and len(chunks2) > 1:
+        out.probe("interleaved-text-readers")
     # text_content / json_content as workload
     tc = text_content(text)
     if tc.as_text() != text:
@@ -230,8 +257,12 @@ def scenario_snapshot(tape, out):
     for i in range(nsrc):
         name = tape.choice("program", ("a", "b", "traceback", "a-1"), "name")
         data = _bytes(tape)
-        kind = tape.draw("program", 3, "source-kind")
-        if kind == 0:
+        kind = tape.draw("program", 4, "source-kind")
+        if kind == 3:
+            live = list(_cut(tape, data))
+            src[name] = Content(ContentType("application", "octet-stream"), lambda c=live: c)   # the same live list every time
+            cells[name] = ("livelist", live, data)
+        elif kind == 0:
             cell = [list(_cut(tape, data))]
             src[name] = Content(ContentType("application", "octet-stream"), lambda c=cell: list(c[0]))
             cells[name] = ("cell", cell, data)
@@ -249,6 +280,9 @@ def scenario_snapshot(tape, out):
     for name, (kind, obj, data) in cells.items():
         if kind == "cell":
             obj[0] = [b"CHANGED"]
+        elif kind == "livelist":
+            del obj[:]
+            obj.append(b"CHANGED")
         else:
             obj.data = bytearray(b"CHANGED")
     out.fire("source-mutated-after-gather")
